@@ -20,6 +20,7 @@ import (
 type cfg struct {
 	Limit             uint32 `json:"set_max_read_frame_size"`                // 0: SetMaxReadFrameSize is not called (default 2^24-1)
 	LimitZero         bool   `json:"set_max_read_frame_size_zero,omitempty"` // SetMaxReadFrameSize(0): only empty frames may be read
+	Reuse             bool   `json:"set_reuse_frames,omitempty"`             // SetReuseFrames(): every outcome is copied out before the next ReadFrame call
 	Meta              bool   `json:"read_meta_headers,omitempty"`
 	MaxList           uint32 `json:"max_header_list_size,omitempty"`
 	AllowIllegalReads bool   `json:"allow_illegal_reads,omitempty"`
@@ -39,7 +40,7 @@ func (c cfg) String() string {
 	if c.LimitZero {
 		return fmt.Sprintf("{limit=0(set) meta=%v maxlist=%d allowIllegalReads=%v}", c.Meta, c.MaxList, c.AllowIllegalReads)
 	}
-	return fmt.Sprintf("{limit=%d meta=%v maxlist=%d allowIllegalReads=%v}", c.Limit, c.Meta, c.MaxList, c.AllowIllegalReads)
+	return fmt.Sprintf("{limit=%d meta=%v maxlist=%d allowIllegalReads=%v reuse=%v}", c.Limit, c.Meta, c.MaxList, c.AllowIllegalReads, c.Reuse)
 }
 
 // outcome of one ReadFrame call.
@@ -300,6 +301,9 @@ func readFork(stream []byte, c cfg) (outs []outcome, pan any) {
 		fr.MaxHeaderListSize = c.MaxList
 	}
 	fr.AllowIllegalReads = c.AllowIllegalReads
+	if c.Reuse {
+		fr.SetReuseFrames()
+	}
 	for i := 0; i < maxCalls; i++ {
 		f, err := fr.ReadFrame()
 		var o outcome
@@ -404,6 +408,9 @@ func readX(stream []byte, c cfg) (outs []outcome, pan any) {
 		fr.MaxHeaderListSize = c.MaxList
 	}
 	fr.AllowIllegalReads = c.AllowIllegalReads
+	if c.Reuse {
+		fr.SetReuseFrames()
+	}
 	for i := 0; i < maxCalls; i++ {
 		f, err := fr.ReadFrame()
 		var o outcome
